@@ -267,6 +267,7 @@ type daemon struct {
 	env     *runEnv
 	confDir string
 	client  *http.Client
+	pmh     *portmapping.PortMappingHandler
 }
 
 const kubeletCNIPath = "/opt/cni/bin"
@@ -279,6 +280,17 @@ func newDaemon(env *runEnv, cfg *staticConf, tag string) (*daemon, error) {
 // PolicyManager built over the daemon's kube client; nil keeps the daemon of the sequential phases (pm == nil).
 func newDaemonPM(env *runEnv, cfg *staticConf, tag string,
 	mk func(kube kubernetes.Interface) (utiliptables.Interface, *policy.PolicyManager)) (*daemon, error) {
+	return buildDaemon(env, cfg, tag, mk, nil)
+}
+
+// overWorld is state that survives a daemon restart.
+type overWorld struct {
+	kube *fake.Clientset
+	ipt  utiliptables.Interface
+}
+
+func buildDaemon(env *runEnv, cfg *staticConf, tag string,
+	mk func(kube kubernetes.Interface) (utiliptables.Interface, *policy.PolicyManager), over *overWorld) (*daemon, error) {
 	confDir := filepath.Join(env.dir, "conf-"+tag)
 	if err := os.MkdirAll(confDir, 0755); err != nil {
 		return nil, err
@@ -309,6 +321,11 @@ func newDaemonPM(env *runEnv, cfg *staticConf, tag string,
 	pmh.Interface = fakes.NewIPTables(nil)
 	kube := fake.NewSimpleClientset()
 	var pm *policy.PolicyManager
+	if over != nil {
+		// daemon-level host-port mode (C14): the kube objects and the kernel outlive the daemon; the caller performs
+		// the start-up pass itself
+		kube, pmh.Interface = over.kube, over.ipt
+	}
 	if mk != nil {
 		var ipt utiliptables.Interface
 		ipt, pm = mk(kube)
@@ -328,7 +345,7 @@ func newDaemonPM(env *runEnv, cfg *staticConf, tag string,
 		return nil, fmt.Errorf("VerifNew: %v", err)
 	}
 	srv := httptest.NewServer(g.VerifHandler())
-	return &daemon{g: g, srv: srv, kube: kube, cfg: cfg, env: env, confDir: confDir,
+	return &daemon{g: g, srv: srv, kube: kube, cfg: cfg, env: env, confDir: confDir, pmh: pmh,
 		client: &http.Client{Transport: &http.Transport{MaxIdleConnsPerHost: 64}}}, nil
 }
 
